@@ -141,45 +141,61 @@ def _history_generation(ctx, target, nhist):
         shutil.rmtree(copy, ignore_errors=True)
 
 
+def _fit_calls(ctx, copy, dd, calls, timeout=1200):
+    env = ctx.env()
+    env["PYTHONPATH"] = os.pathsep.join([common.STANDIN, copy, common.HARNESS])
+    p = subprocess.run([common.PY, os.path.join(common.HARNESS, "workers", "fit_history.py"), json.dumps(dict(data_dir=dd, calls=calls))],
+                       env=env, cwd=copy, capture_output=True, text=True, timeout=timeout)
+    return p.returncode, (p.stdout[-200:] + p.stderr[-700:])
+
+
 def _history_fitting(ctx, nhist):
+    """the four fitting stages observed after earlier pipeline calls IN THE SAME PROCESS (other bases, other complexities,
+    other data, repeats) writing into the same output directories, with and without ignore_previous_eqns"""
     import numpy as np
     lib = libgen.generate(ctx, "core_maths", [1, 2, 3, 4], P=1, copy="c16_fit")
-    if not lib["ok"]:
+    lib2 = libgen.generate(ctx, "ext_maths", [1, 2, 3], P=1, copy="c16_fit")
+    if not (lib["ok"] and lib2["ok"]):
         ctx.disagree("fit-library", "library generation failed"); return
     rs = np.random.default_rng(ctx.seed + 5)
     x = np.linspace(0.5, 3, 20); s = np.full(20, 0.3); y = 0.8 * x * x + rs.normal(0, 0.3, 20)
     y2 = 3.0 / x + rs.normal(0, 0.3, 20)
-
-    def run(dd, seq):
-        for comp, run_name, datafile in seq:
-            r = fitlib.run_pipeline(ctx, lib["copy"], "core_maths", comp, dd, datafile, run_name, P=1, seed=ctx.seed + comp)
-            if not r["ok"]:
-                return None, fitlib.traceback_tail(r)
-        return r["out_dir"], ""
-
-    ref_dd = os.path.join(ctx.tmp, "c16_fit_ref"); os.makedirs(ref_dd)
-    fitlib.write_data(os.path.join(ref_dd, "d.txt"), x, y, s)
-    ref_out, err = run(ref_dd, [(3, "obs", "d.txt")])
-    if ref_out is None:
-        ctx.disagree("fit-reference", err); return
     for h in range(nhist):
-        dd = os.path.join(ctx.tmp, "c16_fit_h%d" % h); os.makedirs(dd)
-        fitlib.write_data(os.path.join(dd, "d.txt"), x, y, s)
-        fitlib.write_data(os.path.join(dd, "e.txt"), x, y2, s)
+        ipe = (h % 2 == 1)
+        kw = {"ignore_previous_eqns": True} if ipe else {}
+        fn_set = ctx.rng.choice(["core_maths", "ext_maths"])
+        obs = dict(fn_set=fn_set, comp=3, data_file="d.txt", run_name="obs", seed=ctx.seed + 3, kw=kw)
+        outs = {}
         hist = []
-        for _ in range(ctx.rng.randint(1, 2)):
-            hist.append((ctx.rng.choice([2, 3, 4]), "obs", ctx.rng.choice(["d.txt", "e.txt"])))      # same run name: same output directories
-        out, err = run(dd, hist + [(3, "obs", "d.txt")])
-        ctx.case(("fit", json.dumps(hist)), nontrivial=True)
-        rp = dict(kind="fitting", history=hist)
-        if out is None:
-            ctx.fail("fitting-after-history-fails", "fitting stages at n=3 fail after earlier stage runs %s in the same output directories: %s" % (hist, err), rp); continue
-        bad = [f for f in sorted(os.listdir(ref_out)) if f.endswith("3.dat") or f.endswith("comp3.dat") or "_3" in f or "comp3" in f]
-        diff = [f for f in bad if not (os.path.exists(os.path.join(out, f)) and filecmp.cmp(os.path.join(ref_out, f), os.path.join(out, f), shallow=False))]
-        if diff:
-            ctx.fail("history-dependent:fitting:%s" % diff[0].split("_comp")[0], "fitting outputs at n=3 after earlier runs %s differ from the fresh run in %s" % (hist, diff[:5]), rp)
-        else:
-            ctx.sample(dict(fitting_history=hist, identical_files=len(bad)), cap=7)
+        for tag in ("ref", "hist"):
+            dd = os.path.join(ctx.tmp, "c16_fit_%s%d" % (tag, h)); os.makedirs(dd)
+            fitlib.write_data(os.path.join(dd, "d.txt"), x, y, s)
+            fitlib.write_data(os.path.join(dd, "e.txt"), x, y2, s)
+            calls = [obs]
+            if tag == "hist":
+                for _ in range(ctx.rng.randint(1, 2)):
+                    hist.append(dict(fn_set=ctx.rng.choice(["core_maths", "ext_maths"]), comp=ctx.rng.choice([2, 3]), data_file=ctx.rng.choice(["d.txt", "e.txt"]),
+                                     run_name="obs", seed=ctx.rng.randint(0, 99), kw=dict(kw)))
+                if not any(c["comp"] == 3 and c["fn_set"] != fn_set for c in hist):
+                    hist[0].update(comp=3, fn_set=("ext_maths" if fn_set == "core_maths" else "core_maths"))
+                calls = hist + [obs]
+            rc, tail = _fit_calls(ctx, lib["copy"], dd, calls)
+            if rc != 0:
+                outs[tag] = None
+                ctx.fail("fitting-after-history-fails" if tag == "hist" else "fitting-reference-fails", "fitting stages (%s n=3%s) fail%s: %s" % (
+                    fn_set, ", ignore_previous_eqns" if ipe else "", " after earlier calls %s in the same process" % hist if tag == "hist" else "", tail[-300:]),
+                    dict(kind="fitting", history=hist, obs=obs))
+                break
+            outs[tag] = os.path.join(dd, "fitting", "output", "output_obs")
+        ctx.case(("fit", json.dumps(hist, sort_keys=True)), nontrivial=True)
+        if outs.get("ref") and outs.get("hist"):
+            names = [f for f in sorted(os.listdir(outs["ref"])) if "comp3" in f or "_3." in f]
+            diff = [f for f in names if not (os.path.exists(os.path.join(outs["hist"], f)) and filecmp.cmp(os.path.join(outs["ref"], f), os.path.join(outs["hist"], f), shallow=False))]
+            if diff:
+                ctx.fail("history-dependent:fitting:%s" % diff[0].split("_comp")[0], "fitting outputs (%s n=3%s) after earlier calls %s in the same process differ from the fresh-process run in %s" % (
+                    fn_set, ", ignore_previous_eqns" if ipe else "", [(c["fn_set"], c["comp"], c["data_file"]) for c in hist], diff[:5]), dict(kind="fitting", history=hist, obs=obs))
+            else:
+                ctx.sample(dict(fitting_observed=[fn_set, 3, "ignore_previous_eqns" if ipe else "default"], history=[(c["fn_set"], c["comp"], c["data_file"]) for c in hist], identical_files=len(names)), cap=8)
 
 
 def run(ctx):
